@@ -166,18 +166,7 @@ asm_reg str_to_reg__c(char *reg)
   __CPROVER_ensures(REGCODE_OK((unsigned)__CPROVER_return_value))
   __CPROVER_ensures(reg[0] == '\0' ==> __CPROVER_return_value == reg_none);
 
-/* tokenizer as seen by line_to_instr */
-int instr_tok__r(struct instr *instr_buffer, char *comp_instr)
-  __CPROVER_requires(__CPROVER_rw_ok(instr_buffer, sizeof(struct instr)) && FBUF_OK && comp_instr == g_buf)
-  __CPROVER_assigns(__CPROVER_object_whole(instr_buffer), __CPROVER_object_whole(g_buf))
-  __CPROVER_ensures(OPD_STR_OK(instr_buffer) && OPD_TYPES_OK(instr_buffer) && TOK_REL(instr_buffer))
-  __CPROVER_ensures(__CPROVER_return_value == EXIT_SUCCESS ==> !HAS_T(instr_buffer, 'e'))
-  /* every immediate operand went through imm_tok, every memory operand through mem_tok */
-  __CPROVER_ensures(__CPROVER_return_value == EXIT_SUCCESS ==> (instr_buffer->imm == HAS_T(instr_buffer, 'i') && instr_buffer->mem_disp == HAS_T(instr_buffer, 'm')))
-  __CPROVER_ensures(instr_buffer->assembly_opt == __CPROVER_old(instr_buffer->assembly_opt) ||
-                    instr_buffer->assembly_opt == (__CPROVER_old(instr_buffer->assembly_opt) | NASM_MOV_IMM))
-  __CPROVER_ensures(instr_buffer->mod_disp == 0 || instr_buffer->mod_disp == MOD8 || instr_buffer->mod_disp == MOD16 || instr_buffer->mod_disp == MOD24)
-  __CPROVER_ensures(__CPROVER_return_value == EXIT_SUCCESS || __CPROVER_return_value == EXIT_FAILURE);
+/* the tokenizer as seen by line_to_instr: instr_tok__r2 in tok_contracts.h (proved through the chain there) */
 #endif
 #ifndef NATIVE_REPLAY
 /* operand-format look-up: the format returned names exactly the operand-type string (proved for
